@@ -6,6 +6,23 @@ Import String.StringSyntax.
 From DT Require Import PyStr Sexp PyVal PureUtils PyStrFacts.
 Import ListNotations.
 
+(* ---- multiline: the continuation appended after the last line is cut off by length ---- *)
+
+Lemma drop_last3_app : forall (s : str) a b c, drop_last3 (s ++ [a; b; c]) = s.
+Proof.
+  intros s a b c. unfold drop_last3. rewrite app_length. cbn [List.length].
+  replace (List.length s + 3 - 3) with (List.length s) by lia.
+  rewrite firstn_app, Nat.sub_diag, firstn_all. cbn [firstn]. apply app_nil_r.
+Qed.
+
+(* one line of text comes back as it is, whatever its last character (the old rstrip ate blanks and backslashes) *)
+Lemma multiline_noquote_line : forall c r, mem_c nl (c :: r) = false -> splitlines (c :: r) = [c :: r] ->
+    multiline_noquote (c :: r) = c :: r.
+Proof.
+  intros c r _ Hs. unfold multiline_noquote. rewrite Hs. cbn [map join].
+  change (L " \" ++ [nl]) with [sp; ch 92; nl]. apply drop_last3_app.
+Qed.
+
 (* ---- quote ---- *)
 
 Lemma quote_nil : quote [] = [].
